@@ -102,7 +102,12 @@ type execRes struct {
 	pan interface{}
 }
 
-func runExec(env *stick.Env, safe bool, main string, w *mon.FaultWriter, ctx map[string]stick.Value) (r execRes) {
+func runExec(env *stick.Env, safe bool, main string, w *mon.FaultWriter, ctx0 map[string]stick.Value) (r execRes) {
+	// a template-level set writes into the caller's map: every run gets its own copy
+	ctx := make(map[string]stick.Value, len(ctx0))
+	for k, v := range ctx0 {
+		ctx[k] = v
+	}
 	mon.BeginExec()
 	defer mon.EndCall()
 	defer func() { r.pan = recover() }()
